@@ -389,7 +389,11 @@ def env_names_checked_for_equals(ctx, prog, fn, T, sinks, rule, key, why):
         def clo(u):
             if u[0] == "agg" and u[1][0] == "closure" and u[1][1] in prog.fns:
                 if '"int": 61' in json.dumps(prog.fns[u[1][1]].j["body"]):
-                    hit.append(u[1][1])
+                    # the predicate must accept exactly the unit '=' (`u == 61`): `u != 61` mentions it too and rejects nearly every name
+                    import c20
+                    lits, other = c20.eq_literals(prog.fns[u[1][1]])
+                    if lits == {61} and not other:
+                        hit.append(u[1][1])
             return False
         M.contains(t_, clo)
         return bool(hit)
